@@ -29,10 +29,11 @@ MANDATORY = ['edit-inside-carried-story', 'reuse-of-payload-object', 'reuse-afte
              'carried-by:StoryAppend', 'carried-by:StoryInsert', 'carried-by:StoryReplace',
              'carried-by:EAStoryInsert', 'carried-by:EAStoryReplace', 'carried-by:StorySend']
 
-KINDS = ([k for k in build.ALL_KINDS if k != 'roDelete'] +
+KINDS = ([k for k in build.ALL_KINDS if k != 'roDelete'] +   # roDelete once: it ends the edits of A
+        
          ['roStoryAppend', 'roStoryInsert', 'roStoryReplace', 'EAStoryInsert', 'EAStoryReplace',
           'roStorySend', 'roItemDelete', 'roItemInsert', 'roItemReplace', 'roItemMoveMultiple',
-          'EAItemDelete', 'EAItemSwap', 'EAItemMove', 'roItemDelete', 'EAItemInsert'])
+          'EAItemDelete', 'EAItemSwap', 'EAItemMove', 'roItemDelete', 'EAItemInsert', 'roDelete'])
 
 
 def _merge(ro, obj):
